@@ -48,10 +48,11 @@ def run(model: Model, rep: Report, tier: str) -> None:
     Z = ("attr", ref.q, "conditions")
     rets = return_paths(ev.run(f, {"identification": ident, "condition": z}))
     problems = []
-    if len(rets) != 1:
+    from .idcommon import quantifier_of, witness_normalise
+    v = quantifier_of(rets)
+    if v is None:
         problems.append(f"{len(rets)} return paths")
     else:
-        v = rets[0].value
         if v[0] != "all":
             problems.append("rule 2 must hold for ALL outcomes" + (" (it is tested with any(): a condition separated from one outcome only would be exchanged)" if v[0] == "any" else ""))
         comp = v[1] if v[0] in ("all", "any") else None
@@ -98,7 +99,7 @@ def run(model: Model, rep: Report, tier: str) -> None:
     ref = Ref(ident)
     G, X, Y, P = ref.G, ref.X, ref.Y, ref.P
     Z = ("attr", ref.q, "conditions")
-    paths = ev.run(f, {"identification": ident})
+    paths = [witness_normalise(p_) for p_ in ev.run(f, {"identification": ident})]
     p2, p3, p4 = [], [], []
     seen_rec = seen_base = False
     for p in paths:
